@@ -7,7 +7,7 @@ A_RNG = "A-RNG: rand::thread_rng().gen_range(lo..hi) returns some value in lo..h
 A_ORD = "A-ORD: the element type's Ord/PartialOrd is a lawful total order and Clone returns an equal value (lawful_ord / lawful_clone are preconditions; proved non-vacuous for u64, i64, usize)"
 A_STD = "A-STD: contracts of std functions used by the bodies (binary_search, sort_unstable, dedup, split_at_mut, Option/Vec basics) as stated in shim/"
 A_VERUS = "Verus 0.2026.09.13 + Z3 are sound; arithmetic overflow is checked by Verus on the executable text"
-A_EXTRACT = "the extractor copies bodies byte-for-byte apart from the rewrites R1-R15 listed in DESIGN.md 8a; the generated text is re-derived from /repo on every run"
+A_EXTRACT = "the extractor copies bodies byte-for-byte apart from the rewrites R1-R16 listed in DESIGN.md 8a; the generated text is re-derived from /repo on every run"
 A_ENUM = "bounded enumerations run the real crate (cfg hook on) and are complete only up to the stated bound"
 
 # witness search used when a Verus obligation of that function fails (replay enumeration name)
@@ -26,6 +26,7 @@ WITNESS = {
     "_get_many_from_sorted_mut_unchecked": "select_many",
     "inner_weighted_var": "moments", "weighted_var": "moments", "weighted_std": "moments", "horner_method": "moments", "moments": "moments",
     "entropy": "entropy", "kl_divergence": "entropy", "cross_entropy": "entropy",
+    "cov": "cov", "pearson_correlation": "cov",
     "central_moment": "moments", "central_moments": "moments", "kurtosis": "moments", "skewness": "moments",
 }
 
@@ -39,7 +40,6 @@ ENGINES = [
 NOTES = ("Contract-based deductive verification: ./check <id> extracts the real function bodies from /repo's working tree, splices the contracts of units/*.tpl.rs, "
          "runs Verus, maps failed obligations to properties through clause tags, replays/witness-searches on the real crate. exit 2 = INCONCLUSIVE (never an alarm).")
 NOT_APPLICABLE = {
-    "C08": "covariance/Pearson accuracy, symmetry and invariances hold only up to roundoff and the computation is ndarray's dot (matrixmultiply, unsafe) - outside both verifiers (error paths are covered by C17)",
 }
 
 A_REAL = "A-REAL (machine arithmetic treated as mathematical): in the Verus units `moments`/`entropy`/`cov` every value of the float type denotes a real number and + - * / neg, comparisons, from_usize are the exact real operations (ln, sqrt, exp: uninterpreted real functions); what is proved is that the routine computes the formula of the property. Rounding is outside this model: the size of the error is measured only by the bounded enumerations against an exact rational oracle"
@@ -103,7 +103,7 @@ PROPS = {
         "level_note": "bounded: axis lengths <= 2, ranks <= 3; value-independence of the guards is by inspection of the guard expressions (len/shape/q comparisons), not proved; strategies' EmptyInput/Strategy mapping is exercised by enum:strategies (C12)",
         "technique": "exhaustive bounded decision table on the real crate + Verus contract on EquiSpaced::new",
         "design_ref": "DESIGN.md 4 (C17)",
-        "verus": [("equispaced", "N"), ("minmax", "N"), ("deviation", "N"), ("means", "N")],
+        "verus": [("equispaced", "N"), ("minmax", "N"), ("deviation", "N"), ("means", "N"), ("moments", "N"), ("entropy", "N"), ("cov", "N")],
         "enum": [{"name": "errors"}],
         "assumptions": [A_ENUM, A_VERUS, A_EXTRACT, BOUNDED_NOTE],
         "not_decided": ["shapes with an axis longer than 2 or rank above 3"],
@@ -238,6 +238,18 @@ PROPS.update({
         "not_decided": ["the forward-error bound for inputs outside the enumerated ones; f32; weights of mixed sign (the property's sign guarantee is for non-negative weights)"],
         "rule": "one case per (shape, data, weights, ddof) or (shape, data) x layouts; non-trivial = at least 2 elements (and positive total weight for the variance)",
     },
+    "C08": {
+        "level": "exploration",
+        "level_text": "two parts. (1) Formula, proved under the exact-arithmetic reading A-REAL and *assumed* contracts of the ndarray operations the bodies are made of (len_of, mean_axis, insert_axis, broadcasting subtraction, t, dot, mapv_into, std_axis, element-wise division, each stated for both axes / both operand orders so that a wrong axis or a transposed product fails): Verus discharges on the extracted bodies of cov and pearson_correlation that for rows = variables and columns = observations cov(ddof) is the (variables x variables) matrix with entry (i, j) = sum_k (x_ik - xbar_i)(x_jk - xbar_j) / (n - ddof), EmptyInput for zero observations, and pearson_correlation has entry (i, j) = cov_ij / (sigma_i sigma_j) with covariance and standard deviations taken with the same ddof, EmptyInput when either dimension is zero. (2) Accuracy and laws, bounded: the real crate is compared with the definition evaluated in exact rational arithmetic within a stated forward-error bound, and checked for symmetry, non-negative diagonal, correlation range [-1, 1], unit diagonal, invariance under x -> 4x + 3 and sign flip under negation, for 4 memory layouts and ddof in {0, 1, 0.5}",
+        "level_note": "NOT counted as proof of the property: rounding is not modelled, and the matrix product is ndarray's (matrixmultiply, unsafe) entering only through its assumed contract. trusted: shim/mat.rs (2-D logical interface of ndarray incl. broadcasting and dot), R16 (`self - &m` written as a function call because the operator on references trips an internal error of the installed Verus), R2 for panic!. The known finding C17/cov_zero_variables (0 variables x n observations returns Ok) is consistent with the contract here (EmptyInput is only claimed for zero observations). bounded: enum:cov as described in its bound string",
+        "technique": "Verus contracts in exact arithmetic on the extracted cov / pearson_correlation bodies over assumed ndarray contracts + bounded comparison of the real crate with an exact rational oracle and algebraic laws",
+        "design_ref": "DESIGN.md 8d (C08)",
+        "verus": [("cov", "N")],
+        "enum": [{"name": "cov"}],
+        "assumptions": [A_REAL, A_VERUS, A_EXTRACT, A_ENUM, "A-ND (2-D): ndarray's len_of/mean_axis/insert_axis/broadcast subtraction/t/dot/mapv_into/std_axis/element-wise division as stated in shim/mat.rs (assumed contracts on a dependency)"],
+        "not_decided": ["accuracy beyond the enumerated inputs; f32; symmetry / range / invariances as exact mathematical facts (they are consequences of the proved formula in exact arithmetic but are only checked numerically)"],
+        "rule": "one case per (matrix, layout, ddof); non-trivial = at least 2 variables and 2 observations",
+    },
     "C09": {
         "level": "proof",
         "level_text": "Verus discharges on the extracted bodies of count_eq, count_neq, sq_l2_dist, l1_dist and linf_dist (after the mechanical rewrites R11: `Zip::from(a).and(b).for_each(closure)` becomes a loop over the index-aligned pairs with the closure body as loop body, and R12: the crate's guard macros are expanded from src/lib.rs), for arrays of every dimensionality and layout: an empty receiver gives EmptyInput, different shapes give an error, otherwise count_eq is exactly the number of index positions holding equal elements (independent of the order in which Zip visits them: vstd's fold-permutation lemma), count_eq + count_neq is the number of elements, and each distance is the fold of its documented term ((a-b)^2, |a-b|, running maximum of |a-b| from zero) with the element type's own arithmetic over all index-aligned pairs, each exactly once - and equals the fold in logical order whenever that fold is order-insensitive (commutative_foldl: true for integer addition and for max of a total order). The derived float measures (l2_dist, mean_abs_err, mean_sq_err, root_mean_sq_err, psnr) and the integer exactness are additionally compared on the real crate with exact i64 arithmetic / bit for bit with their documented formulas, for every pairing of 5 layouts and 4 ownership kinds",
@@ -281,7 +293,7 @@ PROPS.update({
         "level_note": "bounded: enum:layouts - random integer-valued data, shapes 1-D..4-D (<= 16 elements), F-order / stepped-in-parent / reversed axes / embedded at an offset, owned/view/shared/copy-on-write, static vs dynamic dimension; enum:nanview. Float sums under different summation orders: only exactly-representable data",
         "technique": "layout-free trusted interface in the Verus shim + bounded pairwise enumeration on the real crate",
         "design_ref": "DESIGN.md 4 (C20)",
-        "verus": [("nan", "N"), ("minmax", "N"), ("bins", "N"), ("deviation", "N"), ("means", "N")],
+        "verus": [("nan", "N"), ("minmax", "N"), ("bins", "N"), ("deviation", "N"), ("means", "N"), ("entropy", "N")],
         "enum": [{"name": "layouts"}, {"name": "nanview", "abort_props": ["C04"]}],
         "assumptions": [A_ND, A_VERUS, A_EXTRACT, A_ENUM, BOUNDED_NOTE],
         "not_decided": ["floating-point sums whose value depends on summation order (roundoff bound)"],
